@@ -346,10 +346,20 @@ func (p *Parser) parseCallArguments() []Expression {
 func (p *Parser) ParseUpdateExpression() *UpdateStatement {
 	stmt := &UpdateStatement{Token: p.curToken}
 
+	parsed := 0
+
 	for p.curToken.Type != EOF {
 		stmt.Expression = p.parseExpression(precedenceValueLowset)
+		parsed++
 
 		p.nextToken()
+	}
+
+	// an update is one sequence of clauses: tokens before the first clause
+	// keyword are a syntax error
+	if parsed > 1 && len(p.errors) == 0 {
+		msg := fmt.Sprintf("Syntax error; an update expression must start with SET, REMOVE, ADD or DELETE, found %d expressions", parsed)
+		p.errors = append(p.errors, msg)
 	}
 
 	return stmt
